@@ -358,7 +358,8 @@ Print Assumptions hash_table_remove_contract.
 (* the table as a finite map keyed by (hash, equivalence class of the callback): if the callback
    is symmetric and transitive and at most one live entry answers any search ([uniq]; true of the
    empty table), insert keeps that - across rehash and tombstones - and search returns THE entry
-   of the class *)
+   of the class.  (The clause for hash_table_remove_entry: hash_table_refines_map_remove at the end of
+   this file.) *)
 From SqfsV Require Import Util.HashMapView.
 
 Theorem hash_table_refines_map : forall (K V : Type) (keq : K -> K -> bool),
@@ -775,8 +776,9 @@ Print Assumptions str_table_copy_equiv_thm.
 (* C19 for the string table: source and copy share no bucket, and any operation (get_index of a
    known or new string, add_ref, del_ref) on one of two tables that share no bucket keeps that
    table's invariant, leaves the other table's invariant and abstract value alone, and the two
-   still share no bucket.  (ONE step: the hypothesis st_roomy is not re-established for the successor, so the
-   statement for whole interleavings is not a theorem here - independent audit 4, item 12) *)
+   still share no bucket.  (ONE step: the hypothesis st_roomy is not re-established for the successor - independent
+   audit 4, item 12; the statement for whole interleavings is str_table_interleaving_independent /
+   str_table_copy_interleaving at the end of this file) *)
 Theorem str_table_copy_disjoint_thm : forall h dst src h' t',
   str_inv h src -> st_next_index dst = st_next_index src ->
   a_size (st_arr src) = util_sizeof_ptr -> (st_next_index src < ht_safe_limit)%N ->
@@ -981,7 +983,9 @@ Proof. exact hl_filter_loses_inode. Qed.
    ([env_sep]).  [obj_inv] / [pair_inv_g] = well-formed + [env_ok] (closed, separated, counted).
    [dead h R] = the shared objects whose count equals the number of references in R - the ones
    that die with R; [dead_fp] their cells.  Every heap the object constructors of the model
-   produce with counted references is in the domain (the ex_general_domain examples below).
+   produce with counted references is in the domain: THEOREM constructors_establish_obj_inv at the
+   end of this file (all builders, all parameters; the ex_general_domain examples below are
+   instances), and so is every state reachable from there (reachable_obj_inv).
    ====================================================================================== *)
 From SqfsV Require Import C19.ObjGenDefs C19.ObjGenBase C19.ObjGenDrop C19.ObjGenPair C19.ObjGenCheck
      C19.ObjShared C19.ObjSharedDefs C19.ObjSharedInst C19.ObjGenLife C19.ObjSharedEx.
@@ -1520,3 +1524,302 @@ Proof.
 Qed.
 End Run.
 Print Assumptions hash_table_run_from_create.
+
+(* ======================================================================================
+   Audit 4, findings 4, 8, 12 (session 3, builder H3).
+
+   Finding 4 - [obj_inv] is ESTABLISHED by the constructors, as a theorem.  C19/ObjBuild.v: for every
+   builder of C19/ObjKinds.v (mk_flat, mk_res, mk_table, mk_meta, mk_data, mk_dir, mk_xrd, mk_xwr - the header of
+   ObjBuild.v lists which sqfs_*_create each transcribes and which fields / references it sets) and ALL its
+   parameters - the object's own count, the counts of the shared file and compressor, which nullable members are
+   set, the number of table entries / cached nodes / strings / pairs / block nodes - the returned heap satisfies
+   [obj_inv], provided the references the object holds are counted: one per meta reader (mk_meta: 1, mk_dir: 2,
+   mk_xrd: one per sub-reader present), one for the data reader.  [built] closes the builder outputs under
+   [heap_like] (same cells, headers and pointers; the CONTENTS of plain-data members arbitrary: file bytes,
+   compressor configuration and stream state, table payload, tree keys, strings): the literal payloads of the
+   builders are immaterial.  What remains a modelling decision and not a theorem: that the shared compressor has
+   the shape of gzip/zstd (one owned stream cell) - flat compressors are covered as objects of their own
+   (mk_flat), not as the shared object of a reader; that the mk_* builders transcribe the C constructors is the
+   comment table of ObjBuild.v plus the tie (the probes report the shape of the C objects, the model heap is built
+   from that report by these builders and compared token by token).
+   ====================================================================================== *)
+From SqfsV Require Import C19.ObjBuildBase C19.ObjBuild C19.ObjReach.
+
+Theorem constructors_establish_obj_inv : forall k h o, built k h o ->
+  forall m n, (1 <= m)%nat -> (kind_depth k <= n)%nat -> obj_inv m n h o k.
+Proof. exact constructors_establish_obj_inv_l. Qed.
+Print Assumptions constructors_establish_obj_inv.
+
+(* the same, builder by builder, at the depth the examples above use (m = 1, n = 3) *)
+Theorem constructors_establish_obj_inv_explicit :
+  (forall k rc, is_flat_kind k = true -> obj_inv 1 3 (fst (mk_flat k rc)) (snd (mk_flat k rc)) k) /\
+  (forall k rc, is_res_kind k = true -> obj_inv 1 3 (fst (mk_res k rc)) (snd (mk_res k rc)) k) /\
+  (forall k rc used, is_table_kind k = true -> obj_inv 1 3 (fst (mk_table k rc used)) (snd (mk_table k rc used)) k) /\
+  (forall rc rcf rcc, (1 <= rcf)%N -> (1 <= rcc)%N ->
+     obj_inv 1 3 (fst (mk_meta rc rcf rcc)) (snd (mk_meta rc rcf rcc)) KMeta) /\
+  (forall rc frag_used db fb rcf rcc, (1 <= rcf)%N -> (1 <= rcc)%N ->
+     obj_inv 1 3 (fst (mk_data rc frag_used db fb rcf rcc)) (snd (mk_data rc frag_used db fb rcf rcc)) KData) /\
+  (forall rc nodes rcf rcc, (2 <= rcf)%N -> (2 <= rcc)%N ->
+     obj_inv 1 3 (fst (mk_dir rc nodes rcf rcc)) (snd (mk_dir rc nodes rcf rcc)) KDir) /\
+  (forall rc ids idrd kvrd rcf rcc, (b2n idrd + b2n kvrd <= rcf)%N -> (b2n idrd + b2n kvrd <= rcc)%N ->
+     obj_inv 1 3 (fst (mk_xrd rc ids idrd kvrd rcf rcc)) (snd (mk_xrd rc ids idrd kvrd rcf rcc)) KXrd) /\
+  (forall rc keys values pairs nodes,
+     obj_inv 1 3 (fst (mk_xwr rc keys values pairs nodes)) (snd (mk_xwr rc keys values pairs nodes)) KXwr).
+Proof.
+  assert (G : forall k h o, built k h o -> obj_inv 1 3 h o k).
+  { intros k h o B. apply constructors_establish_obj_inv_l; [exact B|apply le_n|destruct k; cbn; auto]. }
+  split; [intros; apply G; apply B_flat; assumption|]. split; [intros; apply G; apply B_res; assumption|].
+  split; [intros; apply G; apply B_table; assumption|]. split; [intros; apply G; apply B_meta; assumption|].
+  split; [intros; apply G; apply B_data; assumption|]. split; [intros; apply G; apply B_dir; assumption|].
+  split; [intros; apply G; apply B_xrd; assumption|intros; apply G; apply B_xwr].
+Qed.
+Print Assumptions constructors_establish_obj_inv_explicit.
+
+(* obj_inv is monotone in the two depth bounds and blind to plain data *)
+Theorem obj_inv_depth_monotone : forall m n m' n' h o k,
+  (m <= m')%nat -> (n <= n')%nat -> obj_inv m n h o k -> obj_inv m' n' h o k.
+Proof. exact obj_inv_mono. Qed.
+Print Assumptions obj_inv_depth_monotone.
+
+Theorem obj_inv_blind_to_payload : forall m n h h' o k, heap_like h h' -> obj_inv m n h o k -> obj_inv m n h' o k.
+Proof. exact obj_inv_payload_independent. Qed.
+Print Assumptions obj_inv_blind_to_payload.
+
+(* the counting condition is exact for the meta reader: without a count for it on file or compressor the
+   heap is outside [obj_inv] (for the directory reader: ex_uncounted_rejected above, where the second drop
+   crashes) *)
+Theorem meta_counting_condition_necessary : forall rc rcf rcc,
+  obj_inv 1 1 (fst (mk_meta rc rcf rcc)) (snd (mk_meta rc rcf rcc)) KMeta -> (1 <= rcf)%N /\ (1 <= rcc)%N.
+Proof. exact meta_counting_necessary. Qed.
+Print Assumptions meta_counting_condition_necessary.
+
+(* non-vacuity: a directory reader with 1000 cached nodes whose two meta readers hold the last references, an
+   xattr writer with 300 keys / 200 values / 500 pairs / 40 blocks - sizes no vm_compute example reaches -, and the
+   example heaps of the shared-operation theorems (other file bytes, other configuration) are [built] *)
+Example ex_built :
+  built KDir (fst (mk_dir 1%N 1000%nat 2%N 2%N)) (snd (mk_dir 1%N 1000%nat 2%N 2%N)) /\
+  built KXwr (fst (mk_xwr 1%N 300%nat 200%nat 500%nat 40%nat)) (snd (mk_xwr 1%N 300%nat 200%nat 500%nat 40%nat)) /\
+  built KMeta (fst (ex_meta 1%N 1%N)) (snd (ex_meta 1%N 1%N)) /\
+  built KData (fst (ex_data 3%N 2%N)) (snd (ex_data 3%N 2%N)) /\
+  built KXrd (fst (ex_xrd 2%N 2%N)) (snd (ex_xrd 2%N 2%N)).
+Proof.
+  split; [apply B_dir; discriminate|]. split; [apply B_xwr|].
+  split; [apply (B_payload KMeta (fst (mk_meta 1%N 1%N 1%N))); [apply B_meta; discriminate|]; repeat constructor|].
+  split; [apply (B_payload KData (fst (mk_data 1%N 2%nat true true 3%N 2%N))); [apply B_data; discriminate|]; repeat constructor|].
+  apply (B_payload KXrd (fst (mk_xrd 1%N true true true 2%N 2%N))); [apply B_xrd; discriminate|]; repeat constructor.
+Qed.
+
+(* ---- reachable_obj_inv.  C19/ObjReach.v: a state is one object or an original with its copy; reachable =
+   a [built] heap, followed by any sequence of: a shared-preserving operation on a single object; sqfs_copy;
+   any schedule of shared-preserving operations on the pair (a different operation table each time, if one
+   likes); the pair seen the other way round; the release of one of the two (its count at most 1), which
+   leaves a single object - that can be copied again.  Every reachable single object satisfies [obj_inv],
+   every reachable pair [pair_inv_g]: the hypotheses of the general theorems above hold throughout. *)
+Theorem reachable_obj_inv : forall HK, hooks_ok HK = true ->
+  forall m n k, (1 <= m)%nat -> (kind_depth k <= n)%nat ->
+  forall st, reach HK m n k st ->
+    match st with
+    | One h o => obj_inv m n h o k
+    | Two h o c => pair_inv_g m n h o c k
+    end.
+Proof. intros HK OK m n k Hm Hn st R. exact (reachable_obj_inv_l HK m n k OK Hm Hn st R). Qed.
+Print Assumptions reachable_obj_inv.
+
+Theorem reachable_release_safe : forall HK, hooks_ok HK = true ->
+  forall m n k, (1 <= m)%nat -> (kind_depth k <= n)%nat ->
+  forall h o c fuel,
+    reach HK m n k (Two h o c) -> (n + m + 1 <= fuel)%nat -> (rc_of h o <= 1)%N -> (rc_of h c <= 1)%N ->
+    exists h1 h2 h1',
+      sqfs_drop DK fuel h o = ObjHeap.Ok h1 /\ sqfs_drop DK fuel h1 c = ObjHeap.Ok h2 /\
+      sqfs_drop DK fuel h c = ObjHeap.Ok h1' /\ sqfs_drop DK fuel h1' o = ObjHeap.Ok h2.
+Proof. intros HK OK m n k Hm Hn. exact (reachable_release_safe_l HK m n k OK Hm Hn). Qed.
+Print Assumptions reachable_release_safe.
+
+Theorem reachable_copy_ok : forall HK, hooks_ok HK = true ->
+  forall m n k, (1 <= m)%nat -> (kind_depth k <= n)%nat ->
+  forall h o fuel, reach HK m n k (One h o) -> (n <= fuel)%nat ->
+    exists h', sqfs_copy HK fuel h o = ObjHeap.Ok (h', Some (length h)) /\ reach HK m n k (Two h' o (length h)).
+Proof. intros HK OK m n k Hm Hn. exact (reachable_copy_ok_l HK m n k OK Hm Hn). Qed.
+Print Assumptions reachable_copy_ok.
+
+(* shared-preserving operations keep [obj_inv] of a single object (no copy beside it) *)
+Theorem shared_preserving_keeps_single : forall m n k view (op ans : Type)
+    (run : op -> heap -> addr -> heap * ans) (step : list aval -> op -> aval -> aval * ans),
+  shared_preserving_op m n k view op ans run step ->
+  forall p h x h' r, obj_inv m n h x k -> run p h x = (h', r) ->
+    obj_inv m n h' x k /\ rc_of h' x = rc_of h x /\ all_refs n h' x = all_refs n h x.
+Proof. exact shared_preserving_keeps_obj_inv. Qed.
+Print Assumptions shared_preserving_keeps_single.
+
+(* non-vacuity: a reachable history of the meta reader that holds the LAST references to file and compressor -
+   built; one read alone; copied; four interleaved reads through the shared compressor; the ORIGINAL released;
+   the surviving copy reads again; the survivor is copied once more - ends in a reachable pair *)
+Example ex_reachable :
+  exists h1 h2 c h3 h4 h5 h6 c2,
+    reach HK_fixed 1 1 KMeta (One (fst (ex_meta 1%N 1%N)) (snd (ex_meta 1%N 1%N))) /\
+    fst (run_ok 1%N (fst (ex_meta 1%N 1%N)) (snd (ex_meta 1%N 1%N))) = h1 /\
+    sqfs_copy HK_fixed 3 h1 (snd (ex_meta 1%N 1%N)) = ObjHeap.Ok (h2, Some c) /\
+    fst (exec N (list N) run_ok ex_sched h2 (snd (ex_meta 1%N 1%N)) c) = h3 /\
+    sqfs_drop DK 4 h3 (snd (ex_meta 1%N 1%N)) = ObjHeap.Ok h4 /\
+    fst (run_ok 2%N h4 c) = h5 /\
+    sqfs_copy HK_fixed 3 h5 c = ObjHeap.Ok (h6, Some c2) /\
+    reach HK_fixed 1 1 KMeta (Two h6 c c2) /\ c <> c2 /\ rc_of h6 a_file = 2%N.
+Proof.
+  set (p := ex_meta 1%N 1%N). pose (Sp := meta_read_is_shared_preserving N (list N) blk_ok blk_ok_stateless req_ex fin_ex nil).
+  assert (R0 : reach HK_fixed 1 1 KMeta (One (fst p) (snd p))) by (apply R_built; apply ex_built).
+  destruct (run_ok 1%N (fst p) (snd p)) as [h1 r1] eqn:E1.
+  assert (R1 : reach HK_fixed 1 1 KMeta (One h1 (snd p))) by (eapply R_op; [exact R0|exact Sp|exact E1]).
+  destruct (sqfs_copy HK_fixed 3 h1 (snd p)) as [[h2 [c|]]| |] eqn:E2;
+    try (exfalso; vm_compute in E1; inversion E1; subst h1; vm_compute in E2; discriminate).
+  assert (R2 : reach HK_fixed 1 1 KMeta (Two h2 (snd p) c)) by (eapply R_copy; [exact R1| |exact E2]; auto).
+  destruct (exec N (list N) run_ok ex_sched h2 (snd p) c) as [h3 rs] eqn:E3.
+  assert (R3 : reach HK_fixed 1 1 KMeta (Two h3 (snd p) c)) by (eapply R_ops; [exact R2|exact Sp|exact E3]).
+  destruct (sqfs_drop DK 4 h3 (snd p)) as [h4| |] eqn:E4;
+    try (exfalso; vm_compute in E1; inversion E1; subst h1; vm_compute in E2; inversion E2; subst h2 c;
+         vm_compute in E3; inversion E3; subst h3; vm_compute in E4; discriminate).
+  assert (RC3 : (rc_of h3 (snd p) <= 1)%N).
+  { vm_compute in E1; inversion E1; subst h1; vm_compute in E2; inversion E2; subst h2 c;
+      vm_compute in E3; inversion E3; subst h3. vm_compute. discriminate. }
+  assert (R4 : reach HK_fixed 1 1 KMeta (One h4 c)) by (eapply (R_drop HK_fixed 1 1 KMeta h3 (snd p) c 4); [exact R3|auto|exact RC3|exact E4]).
+  destruct (run_ok 2%N h4 c) as [h5 r5] eqn:E5.
+  assert (R5 : reach HK_fixed 1 1 KMeta (One h5 c)) by (eapply R_op; [exact R4|exact Sp|exact E5]).
+  destruct (reachable_copy_ok HK_fixed hooks_fixed_ok 1 1 KMeta (le_n _) (le_n _) h5 c 3 R5 (le_S _ _ (le_S _ _ (le_n _)))) as (h6 & E6 & R6).
+  exists h1, h2, c, h3, h4, h5, h6, (length h5).
+  split; [exact R0|]. split; [reflexivity|]. split; [exact E2|]. split; [rewrite E3; reflexivity|]. split; [exact E4|].
+  split; [rewrite E5; reflexivity|]. split; [exact E6|]. split; [exact R6|].
+  vm_compute in E1; inversion E1; subst h1; vm_compute in E2; inversion E2; subst h2 c;
+    vm_compute in E3; inversion E3; subst h3; vm_compute in E4; inversion E4; subst h4;
+    vm_compute in E5; inversion E5; subst h5. vm_compute in E6. inversion E6; subst h6.
+  split; [vm_compute; discriminate|vm_compute; reflexivity].
+Qed.
+
+(* ======================================================================================
+   Finding 12 - the string table, run level.  C19/StrRun.v.  [srun]: any interleaving of get_index / get_string /
+   get_ref_count / add_ref / del_ref on two tables over one bucket heap; [abs_run]: the abstract machine on the
+   list (string, count) by index.  The growth step re-establishes element size and capacity bound ([st_sized]);
+   next_index grows by at most one per get_index call: with [new_budget] = number of get_index calls of a side
+   (an upper bound for its new strings) below the room left under 2^30 the whole schedule runs.  Each side's
+   answers and final value are a function of ITS OWN initial value and ITS OWN operations.
+   ====================================================================================== *)
+From SqfsV Require Import C19.StrRun.
+
+Theorem str_table_interleaving_independent : forall s h a b,
+  str_inv h a -> str_inv h b -> disjoint_tables a b -> st_sized a -> st_sized b ->
+  (st_next_index a + new_budget (pick true s) < ht_safe_limit)%N ->
+  (st_next_index b + new_budget (pick false s) < ht_safe_limit)%N ->
+  exists h' a' b' rs,
+    srun s h a b = SOk (h', a', b', rs) /\
+    str_inv h' a' /\ str_inv h' b' /\ disjoint_tables a' b' /\ st_sized a' /\ st_sized b' /\
+    str_abs h' a' = fst (abs_run (pick true s) (str_abs h a)) /\
+    pick true rs = snd (abs_run (pick true s) (str_abs h a)) /\
+    str_abs h' b' = fst (abs_run (pick false s) (str_abs h b)) /\
+    pick false rs = snd (abs_run (pick false s) (str_abs h b)).
+Proof. exact str_table_interleaving_independent_l. Qed.
+Print Assumptions str_table_interleaving_independent.
+
+(* source and copy: the SAME initial value on both sides - the copy answers every later operation exactly as
+   the original would have, whatever is done to the original in between *)
+Theorem str_table_copy_interleaving : forall h dst src s,
+  str_inv h src -> st_next_index dst = st_next_index src -> st_sized src ->
+  (st_next_index src + new_budget (pick true s) < ht_safe_limit)%N ->
+  (st_next_index src + new_budget (pick false s) < ht_safe_limit)%N ->
+  exists h0 c h' a' c' rs,
+    str_table_copy h dst src = SOk (h0, c, 0%Z) /\
+    srun s h0 src c = SOk (h', a', c', rs) /\
+    str_inv h' a' /\ str_inv h' c' /\ disjoint_tables a' c' /\
+    str_abs h' a' = fst (abs_run (pick true s) (str_abs h src)) /\
+    pick true rs = snd (abs_run (pick true s) (str_abs h src)) /\
+    str_abs h' c' = fst (abs_run (pick false s) (str_abs h src)) /\
+    pick false rs = snd (abs_run (pick false s) (str_abs h src)).
+Proof. exact str_table_copy_interleaving_l. Qed.
+Print Assumptions str_table_copy_interleaving.
+
+Definition ex_str_sched : list (bool * sop) :=
+  [(true, OGetIndex [97]); (false, OGetIndex [98]); (true, OGetString 1); (false, OGetString 1);
+   (false, OAddRef 0); (true, OGetRc 0); (false, OGetRc 0); (false, OGetIndex [117; 115]); (true, ODelRef 0)]%N.
+
+(* all hypotheses of str_table_copy_interleaving, jointly (the table str_table_init returns, one string added),
+   and the run it then guarantees, computed: the original learns "a", the copy "b" - index 1 on either side -,
+   the copy's add_ref is invisible to the original *)
+Example ex_str_table_copy_interleaving :
+  exists h src,
+    str_inv h src /\ st_sized src /\ str_abs h src = [([117; 115], 0)]%N /\
+    (st_next_index src + new_budget (pick true ex_str_sched) < ht_safe_limit)%N /\
+    (st_next_index src + new_budget (pick false ex_str_sched) < ht_safe_limit)%N /\
+    abs_run (pick true ex_str_sched) (str_abs h src)
+      = ([([117; 115], 0); ([97], 0)], [AIndex 0 1; AString (Some [97]); ARc 0; ADone])%N /\
+    abs_run (pick false ex_str_sched) (str_abs h src)
+      = ([([117; 115], 1); ([98], 0)], [AIndex 0 1; AString (Some [98]); ADone; ARc 1; AIndex 0 0])%N.
+Proof.
+  destruct str_table_init_inv_thm as (t0 & E0 & N0 & I0).
+  assert (T0 : t0 = match str_table_init with Some (_, t) => t | None => t0 end) by (rewrite E0; reflexivity).
+  pose (h0 := mk_bheap 0 nil).
+  destruct (I0 h0) as [Inv0 Abs0].
+  assert (NI : ~ In [117; 115] (strings h0 t0)) by (rewrite T0; vm_compute; tauto).
+  assert (R0 : a_size (st_arr t0) = util_sizeof_ptr /\ a_count (st_arr t0) <= 1099511627776)
+    by (rewrite T0; vm_compute; split; [reflexivity|discriminate]).
+  assert (L0 : st_next_index t0 < ht_safe_limit) by (rewrite N0; vm_compute; reflexivity).
+  destruct (str_table_get_index_new_thm h0 t0 [117; 115] Inv0 NI L0 (proj1 R0) (proj2 R0))
+    as (h1 & t1 & _ & Inv1 & Abs1 & N1 & _ & _ & S1 & C1 & _).
+  exists h1, t1. rewrite Abs1, Abs0, N1, N0. split; [exact Inv1|]. split; [exact (conj S1 C1)|].
+  split; [reflexivity|]. vm_compute. repeat split; reflexivity.
+Qed.
+Print Assumptions ex_str_table_copy_interleaving.
+
+(* ======================================================================================
+   Finding 8 - the REMOVE clause of the map view of the hash table.  C19/HashMapRemove.v: tombstoning the entry
+   in slot a keeps [wf] and [uniq], makes every search for its class answer NULL, and every other live entry is
+   still THE answer of the searches for its class.  With hash_table_refines_map (empty table, insert, search)
+   this is the finite map with all four operations.
+   ====================================================================================== *)
+From SqfsV Require Import C19.HashMapRemove.
+
+Theorem hash_table_refines_map_remove : forall (K V : Type) (keq : K -> K -> bool) (t : htab K V) a h k d,
+  wf K V t -> (h < two32)%N -> nthN (ht_table K V t) a = Some (SPresent h k d) ->
+  uniq K V keq (livel K V (ht_table K V t)) ->
+  wf K V (ht_remove_entry K V t a) /\
+  uniq K V keq (livel K V (ht_table K V (ht_remove_entry K V t a))) /\
+  (forall key, keq key k = true -> ht_search K V keq (ht_remove_entry K V t a) h key = Ok None) /\
+  (forall h1 k1 d1 key, (h1 < two32)%N ->
+     In (h1, k1, d1) (livel K V (ht_table K V t)) -> (h1, k1, d1) <> (h, k, d) -> keq key k1 = true ->
+     exists a1, ht_search K V keq (ht_remove_entry K V t a) h1 key = Ok (Some a1) /\
+                ht_entry K V (ht_remove_entry K V t a) a1 = Some (h1, k1, d1)).
+Proof. exact ht_remove_map_view. Qed.
+Print Assumptions hash_table_refines_map_remove.
+
+(* all hypotheses jointly (hash_table_create, two inserts through the contracts), and the conclusion read off *)
+Example ex_hash_table_remove_hyps :
+  exists (t : htab N N) a,
+    wf N N t /\ (7 < two32)%N /\ nthN (ht_table N N t) a = Some (SPresent 7 1 100) /\
+    uniq N N N.eqb (livel N N (ht_table N N t)) /\ In (12, 9, 200) (livel N N (ht_table N N t)) /\
+    ht_search N N N.eqb (ht_remove_entry N N t a) 7 1 = Ok None /\
+    exists a1, ht_search N N N.eqb (ht_remove_entry N N t a) 12 9 = Ok (Some a1).
+Proof.
+  assert (S : forall a b : N, N.eqb a b = true -> N.eqb b a = true) by (intros a b H; rewrite N.eqb_sym; exact H).
+  assert (T : forall a b c : N, N.eqb a b = true -> N.eqb b c = true -> N.eqb a c = true)
+    by (intros a b c H1 H2; apply N.eqb_eq in H1; apply N.eqb_eq in H2; apply N.eqb_eq; congruence).
+  destruct (hash_table_refines_map N N N.eqb S T) as (U0 & UI & US).
+  destruct (hash_table_create_wf N N) as (t0 & E0 & W0 & L0).
+  assert (En0 : ht_entries N N t0 = 0) by (rewrite (wf_entries N N _ W0), L0; reflexivity).
+  assert (B7 : 7 < two32) by (vm_compute; reflexivity). assert (B12 : 12 < two32) by (vm_compute; reflexivity).
+  assert (Lim0 : ht_entries N N t0 < ht_safe_limit) by (rewrite En0; vm_compute; reflexivity).
+  destruct (hash_table_insert_contract N N N.eqb t0 12 9 200 W0 B12 Lim0) as (t1 & a1 & E1 & W1 & _ & C1).
+  assert (P1 : Permutation (livel N N (ht_table N N t1)) [(12, 9, 200)]).
+  { destruct C1 as [(k0 & d0 & rest & _ & P & _)|(_ & P & _)]; [rewrite L0 in P; apply Permutation_nil_cons in P; destruct P|].
+    rewrite L0 in P. exact P. }
+  assert (U1 : uniq N N N.eqb (livel N N (ht_table N N t1))) by (apply (UI t0 12 9 200 t1 a1 W0 B12 Lim0); [rewrite L0; exact U0|exact E1]).
+  assert (Lim1 : ht_entries N N t1 < ht_safe_limit).
+  { rewrite (wf_entries N N _ W1). unfold lenN. rewrite (Permutation_length P1). vm_compute. reflexivity. }
+  destruct (hash_table_insert_contract N N N.eqb t1 7 1 100 W1 B7 Lim1) as (t2 & a2 & E2 & W2 & Sl2 & C2).
+  assert (U2 : uniq N N N.eqb (livel N N (ht_table N N t2))) by (exact (UI t1 7 1 100 t2 a2 W1 B7 Lim1 U1 E2)).
+  assert (P2 : Permutation (livel N N (ht_table N N t2)) [(7, 1, 100); (12, 9, 200)]).
+  { destruct C2 as [(k0 & d0 & rest & _ & P & _)|(_ & P & _)].
+    - exfalso. apply (Permutation_trans (Permutation_sym P1)) in P. apply Permutation_length_1_inv in P. inversion P.
+    - eapply Permutation_trans; [exact P|]. constructor. exact P1. }
+  assert (I12 : In (12, 9, 200) (livel N N (ht_table N N t2))) by (eapply Permutation_in; [symmetry; exact P2|right; left; reflexivity]).
+  destruct (hash_table_refines_map_remove N N N.eqb t2 a2 7 1 100 W2 B7 Sl2 U2) as (_ & _ & R1 & R2).
+  exists t2, a2. split; [exact W2|]. split; [exact B7|]. split; [exact Sl2|]. split; [exact U2|]. split; [exact I12|].
+  split; [apply R1; reflexivity|].
+  destruct (R2 12 9 200 9 B12 I12 ltac:(discriminate) eq_refl) as (a3 & E3 & _). exists a3. exact E3.
+Qed.
+Print Assumptions ex_hash_table_remove_hyps.
